@@ -220,6 +220,31 @@ class UnboundLocal:
     pass
 
 
+class StarArgs:
+    """``*xs`` of an abstract sequence, passed on to the binder."""
+
+    def __init__(self, value):
+        self.value = value
+
+
+class Poisoned:
+    """Value of a local that a loop body assigns but its LoopSpec does not
+    havoc: reading it before it is assigned again would use a stale value,
+    so it is refused (soundness guard for invariant-based loops)."""
+
+
+def _names_assigned(stmts):
+    names = set()
+    for st in stmts:
+        for n in ast.walk(st):
+            if isinstance(n, ast.Name) and isinstance(n.ctx,
+                                                      (ast.Store, ast.Del)):
+                names.add(n.id)
+            elif isinstance(n, ast.ExceptHandler) and n.name:
+                names.add(n.name)
+    return names
+
+
 # syntactic call targets whose calls are dropped (arguments not evaluated)
 DROPPED_PREFIXES = ('logging.', 'progress.', 'traceback.print_tb')
 DROPPED_NAMES = ('_print_progress', )
@@ -253,9 +278,20 @@ class LoopSpec:
     """Invariant for a loop, keyed by (function qualname, loop ordinal)."""
 
     def __init__(self, inv, havoc=None, elem=None, exhausted=None,
-                 decreases=None, name=None, on_entry=None, on_break=None):
+                 decreases=None, name=None, on_entry=None, on_break=None,
+                 on_iter_start=None, on_iter_end=None, on_return=None,
+                 sets=()):
+        # locals that 'effect:' havoc functions assign (declared, so that the
+        # stale-value guard does not mistake an unchanged None for a miss)
+        self.sets = set(sets)
         self.on_entry = on_entry  # callable(engine, env, path): snapshots
         self.on_break = on_break  # callable(engine, env, path) at `break`
+        # per-iteration contract of the arbitrary iteration: snapshot at its
+        # start, obligations at its end (normal end / continue) or when the
+        # body returns from the function
+        self.on_iter_start = on_iter_start
+        self.on_iter_end = on_iter_end
+        self.on_return = on_return
         self.inv = inv  # callable(engine, env) -> SBool/bool/z3
         self.havoc = havoc or {}  # var -> callable(engine, env, path)->value
         self.elem = elem  # callable(engine, env, path) -> element (for loops)
@@ -272,6 +308,8 @@ class Engine:
         self.native_modules = {}  # name -> replacement object (env models)
         self.overrides = {}  # qualified name -> python callable(engine,*a,**k)
         self.loop_specs = {}  # (qualname, ordinal) -> LoopSpec
+        # functions in which every loop must have a LoopSpec
+        self.spec_required = set()
         self.call_hooks = {}
         self.sources = {}
         self.steps = 0
@@ -428,6 +466,10 @@ class Engine:
                     raise PyRaise(
                         UnboundLocalError(
                             f"cannot access local variable '{name}'"))
+                if v is Poisoned:
+                    raise Unsupported(
+                        f'local {name!r} is assigned in a loop whose '
+                        'LoopSpec does not havoc it')
                 return v
             e = e.parent
         if name in mod.g:
@@ -686,11 +728,20 @@ class Engine:
             return None
         return self.loop_specs.get(key)
 
+    def _need_spec(self, s):
+        key = getattr(s, '_loop_key', None)
+        if key is not None and key[0] in self.spec_required:
+            raise Unsupported(
+                f'loop {key[1]!r} of {key[0]} has no invariant (the loop '
+                'structure differs from the one the contract was written '
+                'for)')
+
     def exec_while(self, s, env, mod, clsctx):
         spec = self.loop_spec(s)
         if spec is not None:
             yield from self.exec_loop_inv(s, spec, env, mod, clsctx)
             return
+        self._need_spec(s)
         while self.truth(self.eval(s.test, env, mod, clsctx)):
             try:
                 yield from self.exec_block(s.body, env, mod, clsctx)
@@ -705,6 +756,7 @@ class Engine:
         if spec is not None:
             yield from self.exec_loop_inv(s, spec, env, mod, clsctx)
             return
+        self._need_spec(s)
         it = self.eval(s.iter, env, mod, clsctx)
         for x in self.iterate(it):
             self.assign(s.target, x, env, mod, clsctx)
@@ -731,6 +783,7 @@ class Engine:
             spec.on_entry(self, env, p)
         self._oblige_inv(p, f'{nm}/inv-entry', spec, env)
         # havoc
+        before_havoc = dict(env.vars)
         for var, mk in spec.havoc.items():
             val = mk(self, env, p)
             if var.startswith('effect:'):
@@ -739,7 +792,17 @@ class Engine:
                 p.ghost[var[6:]] = val
             else:
                 env.vars[var] = val
-        p.assume(sym.zbool(self._spec_inv(spec, env)))
+        # soundness guard: a local assigned by the body and not havocked
+        # must not be read with its pre-loop value
+        tgt = _names_assigned([s.target]) if is_for else set()
+        for nm_ in _names_assigned(s.body) - set(spec.havoc) - tgt - \
+                spec.sets:
+            if nm_ in env.vars and nm_ not in env.globals_decl and \
+                    env.vars[nm_] is before_havoc.get(nm_) and \
+                    env.vars[nm_] is not UnboundLocal:
+                env.vars[nm_] = Poisoned
+        for c_ in self._spec_inv_list(spec, env):
+            p.assume(sym.zbool(c_))
         go = p.decide(p.fresh_bool(f'{nm}_iterates'))
         if go:
             if is_for:
@@ -751,6 +814,8 @@ class Engine:
             before = None
             if spec.decreases is not None:
                 before = spec.decreases(self, env)
+            if spec.on_iter_start is not None:
+                spec.on_iter_start(self, env, p)
             try:
                 yield from self.exec_block(s.body, env, mod, clsctx)
             except _Break:
@@ -759,6 +824,12 @@ class Engine:
                 return
             except _Continue:
                 pass
+            except _Return:
+                if spec.on_return is not None:
+                    spec.on_return(self, env, p)
+                raise
+            if spec.on_iter_end is not None:
+                spec.on_iter_end(self, env, p)
             self._oblige_inv(p, f'{nm}/inv-preserved', spec, env)
             if before is not None:
                 after = spec.decreases(self, env)
@@ -788,6 +859,19 @@ class Engine:
                 x = x[1]
             p.oblige(nm, x if not z3.is_expr(x) else mk_bool(x),
                      info=f'conjunct {i}', kind='inv')
+
+    def _spec_inv_list(self, spec, env):
+        r = spec.inv(self, env)
+        if isinstance(r, tuple) and len(r) == 2 and isinstance(r[0], str):
+            r = [r]
+        if not isinstance(r, (list, tuple)):
+            r = [r]
+        out = []
+        for x in r:
+            if isinstance(x, tuple) and len(x) == 2 and isinstance(x[0], str):
+                x = x[1]
+            out.append(x if not z3.is_expr(x) else mk_bool(x))
+        return out
 
     def _spec_inv(self, spec, env):
         r = spec.inv(self, env)
@@ -1713,8 +1797,13 @@ class Engine:
         args = []
         for a in e.args:
             if isinstance(a, ast.Starred):
-                args.extend(self.iterate(self.eval(a.value, env, mod,
-                                                   clsctx)))
+                sv = force(self.eval(a.value, env, mod, clsctx))
+                sh = self.star_handlers.get(type(sv))
+                if sh is not None:
+                    # abstract sequence: bound to *args as a whole
+                    args.append(StarArgs(sh(self, sv)))
+                else:
+                    args.extend(self.iterate(sv))
             else:
                 args.append(self.eval(a, env, mod, clsctx))
         kwargs = {}
@@ -1726,6 +1815,8 @@ class Engine:
             else:
                 kwargs[k.arg] = self.eval(k.value, env, mod, clsctx)
         return self.call(fn, args, kwargs)
+
+    star_handlers = {}
 
     def call(self, fn, args, kwargs):  # noqa: C901
         fn = force(fn)
@@ -1843,6 +1934,14 @@ class Engine:
         args = list(args)
         kwargs = dict(kwargs)
         n = len(params)
+        star = None
+        if any(isinstance(x, StarArgs) for x in args):
+            if not isinstance(args[-1], StarArgs) or len(args) - 1 != n or \
+                    a.vararg is None or any(
+                        isinstance(x, StarArgs) for x in args[:-1]):
+                raise Unsupported('abstract *args not bound to the variadic '
+                                  'parameter as a whole')
+            star = args.pop().value
         if len(args) > n and a.vararg is None:
             raise PyRaise(
                 TypeError(f'{f.name}() takes {n} positional arguments but '
@@ -1864,7 +1963,8 @@ class Engine:
                                   f'{p!r}'))
                 env.vars[p] = f.defaults[di]
         if a.vararg is not None:
-            env.vars[a.vararg.arg] = tuple(args[n:])
+            env.vars[a.vararg.arg] = star if star is not None else \
+                tuple(args[n:])
         for p in a.kwonlyargs:
             if p.arg in kwargs:
                 env.vars[p.arg] = kwargs.pop(p.arg)
